@@ -52,7 +52,7 @@ def gen_history(rng, n):
         elif r < 0.86 and nobj:
             steps.append(dict(op="Metavar", args=[rng.randint(1, nobj), rng.choice(["M", "N", ""])]))
         elif r < 0.93:
-            steps.append(dict(op="MoveParser", args=[]))
+            steps.append(dict(op=rng.choice(["MoveParser", "MoveAssignParser"]), args=[]))
         else:
             steps.append(dict(op="TryParse", args=[]))
     steps.append(dict(op="TryParse", args=[]))
@@ -91,12 +91,12 @@ def run(chk, replay_path):
             wit = dict(steps=c["steps"][:k + 1])
             hist = ["%s%s" % (s["op"], s["args"]) for s in c["steps"][:k + 1]][-7:]
             if k >= len(steps):
-                chk.diverge(act["op"] + ("/after-move" if any(s["op"] == "MoveParser" for s in c["steps"][:k]) else ""), o.get("outcome", "crash"), wit,
+                chk.diverge(act["op"] + ("/after-move" if any(s["op"].startswith("Move") for s in c["steps"][:k]) else ""), o.get("outcome", "crash"), wit,
                             "history %s: implementation %s (%s)" % (hist, o.get("outcome"), o.get("why")))
                 break
             rr = cmp_step(act, to, steps[k])
             if rr:
-                chk.diverge(act["op"] + ("/after-move" if any(s["op"] == "MoveParser" for s in c["steps"][:k]) else ""), rr[0], wit, "history %s: %s" % (hist, rr[1]))
+                chk.diverge(act["op"] + ("/after-move" if any(s["op"].startswith("Move") for s in c["steps"][:k]) else ""), rr[0], wit, "history %s: %s" % (hist, rr[1]))
                 break
     chk.replayed += len(paths)
     chk.exhaustive = True
@@ -128,7 +128,7 @@ def run(chk, replay_path):
     chk.recorded += len(execs) - st["unexamined"]
     for k, matched, path, why in rej:
         ev = execs[k][min(matched, len(execs[k]) - 1)]
-        moved = any(e["e"] == "MoveParser" for e in execs[k][:matched])
+        moved = any(e["e"].startswith("Move") for e in execs[k][:matched])
         chk.diverge(ev["e"] + ("/after-move" if moved else ""), "trace-rejected" if ev["out"] in ("ok", "parser_error") else ev["out"], dict(steps=meta[k]["steps"][:matched + 1]),
                     "recorded call %d rejected by OptDeclTrace (%s): %s%s -> %s id=%s objs=%s %s" % (matched + 1, why, ev["e"], ev["args"], ev["out"], ev["id"], ev["objs"], ev["resolves"]), artefact=path)
     if execs:
